@@ -19,6 +19,7 @@ import EPV.Lemmas.PrattTables
 import EPV.Lemmas.PrattComplete
 import EPV.Model.PrattLexer
 import EPV.Lemmas.PrattSource
+import EPV.Spec.EBNFKw
 open EPV.Proto EPV.Syn EPV.Pratt EPV.Gen.C04
 
 def parseTok (s : String) : Option Tok :=
@@ -30,6 +31,7 @@ def parseTok (s : String) : Option Tok :=
   | 't' :: rest => (nat? (String.ofList rest)).map .ty
   | 'o' :: rest => (nat? (String.ofList rest)).map .op
   | 'c' :: rest => (nat? (String.ofList rest)).map .close
+  | 'k' :: rest => (nat? (String.ofList rest)).map .close   -- keyword of the ExprSingle layer (EPV/Model/PrattKw.lean)
   | _ => none
 
 partial def showTree (rows : List Row) : Tree → String
@@ -64,6 +66,46 @@ def versions : List Ver := [
   ⟨120, opTable_v20c, levels20, levels20impl, true, textTbl_v20⟩,
   ⟨130, opTable_v30c, levels30, levels30, true, textTbl_v30⟩,
   ⟨131, opTable_v31c, levels31, levels31, true, textTbl_v31⟩]
+
+
+/-! keyword ExprSingle layer (phase 5): `V=<ver> KW=1 T=<tok>,…` with keyword tokens `k<2..12>` -/
+partial def showX (rows : List Row) : EPV.Kw.XTree → String
+  | .leaf t => showTree rows t
+  | .seq o l r => s!"(B{symOf rows o} {showX rows l} {showX rows r})"
+  | .ite _ c a b => s!"(I {showX rows c} {showX rows a} {showX rows b})"
+  | .bind q v r b => s!"(Q{q} {showTree rows v} {showX rows r} {showX rows b})"
+
+def leavesX : EPV.Kw.XTree → List Tree
+  | .leaf t => [t]
+  | .seq _ l r => leavesX l ++ leavesX r
+  | .ite _ c a b => leavesX c ++ leavesX a ++ leavesX b
+  | .bind _ v r b => v :: (leavesX r ++ leavesX b)
+
+def idxOf (rows : List Row) (s : String) : Nat := EPV.Kw.symIdx rows s
+
+/-- answer: model=<xtree|ERR:…> spec=<xtree|ERR> trig=<F04p,F04q|-> kwop=<0|1> rel=<0|1>
+  rel: run-time cross-check of the proved statements (`kw_inv`: yield; relaxed derivation) -/
+def answerKw (V : Ver) (toks : List Tok) : String :=
+  let lp := idxOf V.rows "("
+  let comma := idxOf V.rows ","
+  let T := tableOf V.rows
+  let m := EPV.Kw.xparse T lp comma toks
+  let s := EPV.Kw.xebnfParse (gramOf V.w3c V.ep (syms V.rows)) lp comma toks
+  let ms := match m with | .ok t => showX V.rows t | .error e => showErr e
+  let ss := match s with | some t => showX V.rows t | none => "ERR"
+  let trig : List String :=
+    -- the findings of the operator fragment, per leaf
+    (match s, m with
+     | none, .ok t => if (leavesX t).any (fun l => trigF04b V.rows V.impl V.ep (specParse V.w3c V.ep V.rows l.yield) l.yield) then ["F04b"] else []
+     | some t, _ => if (leavesX t).any (trigF04d (V.n % 100) V.rows) then ["F04d"] else []
+     | _, _ => [])
+  let rel := (match m with
+    | .ok t => decide (t.yield = toks) && EPV.Kw.xwf false (gramOf V.impl V.ep (syms V.rows)) lp comma false t
+    | .error _ => true) &&
+    (match s with
+    | some t => decide (t.yield = toks) && EPV.Kw.xwf true (gramOf V.w3c V.ep (syms V.rows)) lp comma false t
+    | none => true) && EPV.Kw.commaOnly V.rows comma
+  s!"model={ms} spec={ss} trig={if trig.isEmpty then "-" else ",".intercalate trig} kwop={if EPV.Kw.kwOperand toks then 1 else 0} rel={if rel then 1 else 0}"
 
 def lexTables (v : Nat) : Option (EPV.Lexer.Classes × List EPV.Lexer.Alt) :=
   match v % 100 with
@@ -100,6 +142,7 @@ def answer (line : String) : String :=
         -- lexical constraint on occurrence indicators: `T * * 2` is `T* * 2` (both the model and the reference
         -- parser read the normalised token list; the real parser reads the text of the original one)
         let toks := normalize V.rows toks0
+        if (field fs "KW") ≠ "" then answerKw V toks else
         let m := modelParse V.rows toks
         let s := specParse V.w3c V.ep V.rows toks
         let ms := match m with | .ok t => showTree V.rows t | .error e => showErr e
